@@ -32,7 +32,7 @@ const VALUES: &[&str] = &[
 const SCALARS: &[&str] = &["V1", "V2", "code", "i", "line"];
 const FUNCS: &[&str] = &["f1", "f2", "code"];
 const ALIASES: &[&str] = &["a1", "f2", "ll"];
-const SET_OPTS: &[&str] = &["noclobber", "nounset", "noglob", "pipefail", "allexport", "physical"];
+const SET_OPTS: &[&str] = &["noclobber", "nounset", "noglob", "pipefail", "allexport", "physical", "errexit"];
 const SHOPTS: &[&str] = &["nullglob", "dotglob", "extglob", "nocasematch", "globstar"];
 const DIRS: &[&str] = &["d1", "d1/d2", "with space", "ünï"];
 
@@ -361,7 +361,7 @@ pub fn property() -> Property {
             "decided against the one bash in this image (5.2); `the bash in PATH` is not varied",
             "reference = one /bin/bash process reading the same snippets and probes from stdin with the same environment and an identical (initially empty) directory tree; `shopt -s expand_aliases` as in the runner template",
             "only probe stdout is compared (error texts carry line numbers that legitimately differ); detached snippets are pure state changes and are omitted from the reference",
-            "errexit is not generated (a failing snippet would end the single session); histories whose reference session ends early are not asserted",
+            "histories whose reference session ends early (a failing snippet under errexit, an unbound variable under nounset) are not asserted",
         ],
         parts: vec![Box::new(PropPart::<History> {
             name: "history",
